@@ -279,6 +279,45 @@ def gen_auc_case(rng):
         lines.append("A %d %d | %s | %s | %s" % (inv, rng.choice(THREADS), " ".join(map(str, partition(rng, n))), " ".join(map(str, labs)), " ".join(sc)))
     return lines
 
+
+def gen_seq_case(rng):
+    """SquaredLoss<Sequence,Sequence>: batch of sequences of different lengths, the first `ignore` elements of every sequence are
+    excluded from the value, so their gradient must be zero; the gradient object may be a reused one"""
+    dim = rng.choice([1, 2, 3]); nseq = rng.randint(1, 4)
+    ignore = rng.choice([0, 0, 1, 2, 3, 5])
+    lens = [rng.randint(1, 7) for _ in range(nseq)]
+    if rng.random() < 0.8: lens = [max(l, ignore + 1) for l in lens]        # else: some sequence not longer than `ignore` -> documented exception
+    tot = sum(lens) * dim
+    labs = [fq(dyq(rng, -3, 3, (1, 2))) for _ in range(tot)]
+    preds = [fq(dyq(rng, -3, 3, (1, 2))) for _ in range(tot)]               # predictions differ from the labels inside the ignored prefix too
+    return ["S sq %d %d %d | %s | %s | %s" % (ignore, dim, rng.choice([0, 1]), " ".join(map(str, lens)), " ".join(labs), " ".join(preds))]
+
+def mon_S(line, out):
+    s = sections(line); hd = s[0]; d = toks(out); ignore = int(hd[2]); dim = int(hd[3])
+    lens = [int(x) for x in s[1]]; labs = [pq(x) for x in s[2]]; preds = [pq(x) for x in s[3]]
+    what = "SquaredLoss<Sequence,Sequence>(ignore=%d)%s lengths=%s dim=%d" % (ignore, " with a reused gradient object" if hd[4] == "1" else "", s[1], dim)
+    if any(l <= ignore for l in lens):
+        return [] if "EXC" in out else [("S:seq:no-exception", "%s: a sequence is not longer than the ignored prefix, documented exception expected, got %s" % (what, out[:120]))]
+    if "v" not in d: return [("S:seq:exception", "%s: %s" % (what, out[:160]))]
+    want_v = Fraction(0); want_g = []; pos = 0
+    for l in lens:
+        for j in range(l):
+            for k in range(dim):
+                df = preds[pos] - labs[pos]; pos += 1
+                if j >= ignore: want_v += df * df / 2; want_g.append(df)
+                else: want_g.append(Fraction(0))
+    v, dv = Fraction(fh(d["v"])), Fraction(fh(d["dv"]))
+    if v != want_v: return [("S:seq:value", "%s: eval = %s, half the squared distance over the counted elements is %s" % (what, float(v), float(want_v)))]
+    if dv != v: return [("S:seq:derivative-value", "%s: evalDerivative returns the value %s, eval returns %s" % (what, float(dv), float(v)))]
+    gl = [int(x) for x in d["gl"].split(",")] if d.get("gl") else []
+    if gl != lens: return [("S:seq:gradient-shape", "%s: the gradient holds sequences of lengths %s" % (what, gl))]
+    g = [Fraction(x) for x in fhl(d["g"])]
+    if g != want_g:
+        k = next(i for i, (a, b) in enumerate(zip(g, want_g)) if a != b)
+        return [("S:seq:gradient", "%s: gradient component %d is %s, the derivative of the returned value w.r.t. that prediction component is %s%s" % (
+            what, k, float(g[k]), float(want_g[k]), " (element inside the ignored prefix)" if want_g[k] == 0 else ""))]
+    return []
+
 def gen_zw_case(rng):
     n = rng.randint(1, 8); dim = rng.choice([1, 2, 3])
     labs = [str(rng.randint(0, 1) if dim == 1 else rng.randrange(dim)) for _ in range(n)]
@@ -570,7 +609,7 @@ def main():
     if ck.replay:
         lines = [l for l in open(ck.replay).read().split("\n") if l.strip() and not l.startswith("#")]
         zcases = [[l] for l in lines if l.startswith("Z ")]
-        lines = [l for l in lines if not l.startswith("Z ")]
+        lines = [l for l in lines if not l.startswith("Z ") and not l.startswith("S ")]
         cases = [lines] if lines else []
     else:
         k = 8 if big else 1
@@ -686,8 +725,28 @@ def main():
               "" if zfail == 0 and not zdis else "%d cases fail the monitor, %d disagree with the model" % (zfail, len(zdis)))
     ck.notes["failures_matching_known_findings"] = zknown
 
+    # ---------------- SquaredLoss<Sequence,Sequence>: spec monitor only (value, derivative value, gradient incl. the ignored prefix, reused gradient objects)
+    scases = []
+    if not ck.replay:
+        scases = [gen_seq_case(rng) for _ in range(150 * (8 if big else 1))]
+    else:
+        scases = [[l] for l in open(ck.replay).read().split("\n") if l.startswith("S ")]
+    so = run_cases(exe, scases, os.path.join(tmpd, "s_in.txt"), env=OMPENV) if scases else []
+    sfail = 0; seen = set()
+    for c, (o, rc, e) in zip(scases, so):
+        msgs = [("S:seq:crash", "implementation crashed on `%s`" % c[0])] if rc != 0 or len(o) != 1 else mon_S(c[0], o[0])
+        for key, msg in msgs[:1]:
+            if ck.match_known(key) is None: sfail += 1
+            if key not in seen:
+                seen.add(key)
+                cf = ck.write_replay("s_%s.txt" % key.split(":")[2], c[0] + "\n")
+                ck.violation(key, {"case_file": cf, "case": c, "implementation_output": o, "monitor": msg, "replay_cmd": "python3 tools/c06.py --replay %s" % cf},
+                             "spec monitor fails on the implementation: " + msg)
+    if scases:
+        ck.oblige("SquaredLoss<Sequence,Sequence>: value = evalDerivative value = half squared distance over the counted elements, gradient = derivative (zero on the ignored prefix), fresh and reused gradient objects, on %d cases" % len(scases), sfail == 0)
+
     # ---------------- coverage
-    allc = cases + zcases
+    allc = cases + zcases + scases
     flat = [l for c in allc for l in c]
     kinds = {}
     for l in flat: kinds[l[0]] = kinds.get(l[0], 0) + 1
